@@ -10,11 +10,14 @@ import os as _os
 class FaultPlan:
     """fault = None | dict(k=int, kind='error'|'short'|'die-before'|'die-after', errno=...)"""
 
-    def __init__(self, fault=None, buffer_size=8192):
+    def __init__(self, fault=None, buffer_size=8192, hook=None, stamp=None):
         self.fault = fault
         self.buffer_size = buffer_size
         self.ops = []       # (name, detail)
         self.fired = None
+        self.hook = hook    # in-simulation mode: hook(phase, opname, path) around every syscall (may raise)
+        self.stamp = stamp  # in-simulation mode: virtual-clock mtime for files this process closes
+        self.dead = False   # in-simulation process death: nothing reaches the kernel any more
 
     def op(self, name, detail=None):
         """Register a file operation about to happen; returns the action for
@@ -38,9 +41,25 @@ def _die():
     _os._exit(137)
 
 
+class _Dead(Exception):
+    pass
+
+
 class FaultyFileIO(io.FileIO):
     def __init__(self, path, mode):
         plan = PLAN[0]
+        self._path = str(path)
+        if plan.dead:
+            raise _Dead()
+        if plan.hook:
+            plan.hook("before", "open", self._path)
+            super().__init__(path, mode)
+            try:
+                plan.hook("after", "open", self._path)
+            except BaseException:
+                io.FileIO.close(self)   # never leave the descriptor to the garbage collector
+                raise
+            return
         act = plan.op("open", _os.path.basename(str(path)))
         if act == "die-before":
             _die()
@@ -52,6 +71,13 @@ class FaultyFileIO(io.FileIO):
 
     def write(self, b):
         plan = PLAN[0]
+        if plan.dead:
+            return len(b)
+        if plan.hook:
+            plan.hook("before", "write", self._path)
+            n = super().write(b)
+            plan.hook("after", "write", self._path)
+            return n
         act = plan.op("write", len(b))
         if act == "die-before":
             _die()
@@ -71,6 +97,21 @@ class FaultyFileIO(io.FileIO):
         if self.closed:
             return super().close()
         plan = PLAN[0]
+        if plan is None or plan.dead:
+            return super().close()
+        if plan.hook:
+            try:
+                plan.hook("before", "close", self._path)
+            except BaseException:
+                io.FileIO.close(self)   # a failing close(2) still releases the descriptor
+                raise
+            if plan.stamp is not None:
+                # the kernel's mtime, on the virtual clock (through the descriptor: the file may have been renamed)
+                t = plan.stamp()
+                _os.utime(self.fileno(), ns=(int(round(t * 1e9)), int(round(t * 1e9))))
+            super().close()
+            plan.hook("after", "close", self._path)
+            return
         act = plan.op("close")
         if act == "die-before":
             _die()
@@ -107,6 +148,13 @@ class FakeOs:
     @staticmethod
     def replace(src, dst):
         plan = PLAN[0]
+        if plan.dead:
+            return
+        if plan.hook:
+            plan.hook("before", "replace", str(dst))
+            _os.replace(src, dst)
+            plan.hook("after", "replace", str(dst))
+            return
         act = plan.op("replace", _os.path.basename(str(dst)))
         if act == "die-before":
             _die()
@@ -119,6 +167,8 @@ class FakeOs:
     @staticmethod
     def remove(path):
         plan = PLAN[0]
+        if plan.dead:
+            return
         plan.op("remove", _os.path.basename(str(path)))
         _os.remove(path)
 
